@@ -361,6 +361,19 @@ func (fr *Frame) callStatic(fn *ssa.Function, bindings []Term, args []Term, sig 
 		} else {
 			g.usedAssumed[key] = true
 		}
+		// a function literal with a contract of its own: its captured variables are named in that contract
+		fr.pendingFree = nil
+		if fn.Parent() != nil && len(bindings) == len(fn.FreeVars) {
+			fr.pendingFree = map[string]Binding{}
+			for i, fv := range fn.FreeVars {
+				if p, ok := fv.Type().Underlying().(*types.Pointer); ok {
+					fr.pendingFree[fv.Name()] = Binding{g.load(c.st, bindings[i].S, p.Elem()), goTy(p.Elem())}
+				} else {
+					fr.pendingFree[fv.Name()] = Binding{bindings[i], goTy(fv.Type())}
+				}
+			}
+		}
+		defer func() { fr.pendingFree = nil }()
 		return fr.applyContract(fc, key, fn.Signature, args, pts, c, ins)
 	}
 	if g.W.ignored(key) {
@@ -512,6 +525,11 @@ func (fr *Frame) applyContract(fc *FuncContract, key string, sig *types.Signatur
 			ty = goTy(ptypes[i])
 		}
 		env.vars[names[i]] = Binding{a, ty}
+	}
+	for n, b := range fr.pendingFree {
+		if _, taken := env.vars[n]; !taken {
+			env.vars[n] = b // values of the captured variables at the call (a contract on a function literal)
+		}
 	}
 	if (fc.Extern || fc.AssumeOnly) && g.dry == 0 {
 		g.obls = append(g.obls, &Obligation{Name: fr.oname("cover@"+site, "before"), Kind: "cover", Func: g.fnName, Prefix: g.sc.Len(), Reach: c.reach, Goal: "true", Cover: true})
